@@ -1242,6 +1242,7 @@ func (c *Cluster) doConfChange(n *Node, a Action) bool {
 	}
 	err := n.call("ProposeConfChange", m, func() error { return n.api.Step(m) })
 	c.chk.onConfProposeReturn(n, a.I, err)
+	c.chk.onConfProposeReturn(n, a.J, err)
 	return true
 }
 
